@@ -648,6 +648,7 @@ def macro_acts(acts):
 
 
 _wcount = [0]
+_FUT = ['::futures']     # path of the futures crate used by the reference code of the program being emitted
 
 
 def ref_apply(recv, acts, is_async=False):
@@ -1257,13 +1258,19 @@ def ref_expr(inv, top=False):
         for b in active:
             v = var_of(inv, b)
             if A:
-                recv = b.init.ref_src() if k == 0 else '::futures::future::ready(%s)' % v
+                recv = b.init.ref_src() if k == 0 else '%s::future::ready(%s)' % (_FUT[0], v)
                 chain = ref_apply(recv, b.steps[k], is_async=True)
                 L.append('let mut %s = w::aseg(&%s, %d, %d, async { (%s).await }).await;' % (v, ig, b.index, k, chain))
             else:
                 recv = b.init.ref_src() if k == 0 else v
                 chain = ref_apply(recv, b.steps[k])
                 L.append('let mut %s = w::seg(&%s, %d, %d, || %s);' % (v, ig, b.index, k, chain))
+        jmode = joiner['mode'] if (joiner is not None and len(active) > 1) else None
+        if jmode in ('eager', 'lazy', 'async', 'async_lazy', 'async_transpose'):
+            # the joiner stamps every value it hands back (wrapped values included)
+            for b in active:
+                v = var_of(inv, b)
+                L.append('let mut %s = w::js(%d, %s);' % (v, joiner['ev'], v))
         if inv.is_try:
             flags = ', '.join('w::is_fail(&%s)' % var_of(inv, b) for b in active)
             L.append('let __nf = [%s].iter().filter(|x| **x).count() as u32;' % flags)
@@ -1280,6 +1287,11 @@ def ref_expr(inv, top=False):
                     L.append('    if w::is_fail(&%s) { return Err(%s.err().unwrap()); }' % (v, v))
             L.append('    unreachable!();')
             L.append('}')
+        if jmode in ('try_notranspose', 'async_try'):
+            # these joiners hand back the transposed Ok tuple, stamped
+            for b in active:
+                v = var_of(inv, b)
+                L.append('let mut %s = %s.map(|v| w::js(%d, v));' % (v, v, joiner['ev']))
     n = len(inv.branches)
     vs = [var_of(inv, b) for b in inv.branches]
     h = inv.handler
@@ -1342,6 +1354,8 @@ class Program:
     ctx: Ctx
     anchor: Optional[str] = None
     kinds: Optional[list] = None      # restrict macro kinds (names)
+    extra_items: str = ''             # Rust items emitted before the run functions (joiner macros)
+    fut: str = '::futures'            # futures crate path visible in the crate this program is compiled in
 
     def family(self):
         return ('async' if self.top.is_async else 'sync', self.top.is_try)
@@ -1362,6 +1376,8 @@ class Program:
         """Rust source of the program. stub_kinds: kinds whose macro form failed to compile."""
         P = self.pid
         out = []
+        if self.extra_items:
+            out.append(self.extra_items)
         A = self.top.is_async
         rc = render_code(self.top)
         runs = []
@@ -1376,6 +1392,7 @@ class Program:
                 out.append('pub fn run_%d_%s() -> String {\n    let __res = %s;\n    %s\n}' % (P, kname, macro_expr(self.top, kname), rc))
                 runs.append('(Kind::%s, RunFn::Sync(run_%d_%s))' % (kvar, P, kname))
         _wcount[0] = 0
+        _FUT[0] = self.fut
         out.append('// @ref %d' % P)
         rexpr = ref_expr(self.top, top=True)
         if A:
@@ -1414,7 +1431,8 @@ use futures::{FutureExt, TryFutureExt, StreamExt, TryStreamExt};
 
 def emit_chunk(programs, stubs=None):
     stubs = stubs or {}
-    parts = [HEADER]
+    fut = programs[0].fut if programs else '::futures'
+    parts = [HEADER.replace('use futures::', 'use %s::' % fut.lstrip(':'))]
     for pr in programs:
         parts.append('// ---- program %d (%s)' % (pr.pid, pr.slice))
         parts.append(pr.emit(stub_kinds=stubs.get(pr.pid, ())))
@@ -1473,7 +1491,102 @@ def gen_program(pid, slice_name, profile, family, seed, same_typed=False, kinds=
     raise RuntimeError('cannot generate program %s/%d' % (slice_name, pid))
 
 
-SPECIAL_SLICES = ('grid',)
+SPECIAL_SLICES = ('grid', 'opts', 'optsf')
+
+FUTURES = '::futures'
+
+JOINER_BODIES = {
+    'eager': 'w::jst({ev}, ($($x),*))',
+    'lazy': 'w::jst({ev}, ($(($x)()),*))',
+    'try_notranspose': 'w::tr({ev}, ($($x),*))',
+    'handles': '($($x),*)',
+    'async': 'w::jst({ev}, {fut}::join!($($x),*))',
+    'async_lazy': 'w::jst({ev}, {fut}::join!($(($x)()),*))',
+    'async_try': '{fut}::try_join!($($x),*).map(|t| w::jst({ev}, t))',
+    'async_transpose': 'w::jst({ev}, {fut}::join!($($x),*))',
+}
+
+
+def joiner_macro(name, ev, mode, fut):
+    body = JOINER_BODIES[mode].format(ev=ev, fut=fut)
+    return ('macro_rules! %s { ($($x:expr),*) => {{ w::joiner(%d, 0usize $(+ { let _ = stringify!($x); 1usize })*); %s }}; }'
+            % (name, ev, body))
+
+
+OPT_VARIANTS = {
+    # family -> [(variant, kinds or None)]
+    ('sync', False): [('eager', ['join']), ('lazy', ['join']), ('handles', ['join_spawn', 'spawn']), ('noop', None)],
+    ('sync', True): [('eager', ['try_join']), ('lazy', ['try_join']), ('try_notranspose', ['try_join']), ('handles', ['try_join_spawn', 'try_spawn']), ('noop', None)],
+    ('async', False): [('async', None), ('async_lazy', ['join_async']), ('fcp', None)],
+    ('async', True): [('async_try', None), ('async_transpose', None), ('fcp', None)],
+}
+
+
+def gen_opts(pid, family, variant, kinds, seed, fut='::futures'):
+    for attempt in range(60):
+        rng = random.Random(subseed(seed, attempt))
+        prof = dict(PROFILES['pos'])
+        prof.update(branches=(2, 5), handler=0.3, names=0.15, captures=0.15)
+        if variant == 'try_notranspose':
+            prof['depth_profile'] = lambda r, nb: [1] * nb
+        else:
+            prof['depth_profile'] = lambda r, nb: [r.randint(1, 3) for _ in range(nb)]
+        ctx = Ctx(rng, prof)
+        try:
+            top = gen_invocation(ctx, None, family[1], family[0] == 'async', same_typed=True)
+        except (Retry, RuntimeError):
+            continue
+        if variant == 'try_notranspose' and top.flavor != 'res':
+            continue
+        opts = []
+        extra = ''
+        if variant not in ('noop', 'fcp'):
+            # the joiner event belongs to the invocation, evaluated by the caller
+            e = ctx.next_ev
+            ctx.next_ev += 1
+            ctx.evs.append(EvMeta(e, 'Joiner', False, 0, CALLER, 0))
+            name = 'jn_%d' % pid
+            extra = joiner_macro(name, e, variant, fut)
+            top.joiner = dict(ev=e, mode=variant)
+            opts.append('custom_joiner(%s!)' % name)
+        if variant in ('lazy', 'async_lazy'):
+            opts.append('lazy_branches(true)')
+        if variant == 'try_notranspose':
+            opts.append('transpose_results(false)')
+        if variant == 'async_transpose':
+            opts.append('transpose_results(true)')
+        # options that do not change the default behaviour, to vary subsets and orders
+        noops = []
+        if family[0] == 'async':
+            noops.append('futures_crate_path(%s)' % fut)
+            if variant not in ('async_lazy',):
+                noops.append('lazy_branches(false)')
+            if variant not in ('async_transpose',):
+                noops.append('transpose_results(false)')
+        else:
+            spawnish = kinds is not None and any('spawn' in k for k in kinds)
+            if variant not in ('lazy',) and not spawnish and kinds is not None:
+                noops.append('lazy_branches(false)')
+            if spawnish:
+                noops.append('lazy_branches(true)')
+            if variant != 'try_notranspose':
+                noops.append('transpose_results(true)' if family[1] else rng.choice(['transpose_results(true)', 'transpose_results(false)']))
+        if variant == 'fcp':
+            opts.append('futures_crate_path(%s)' % fut)
+            noops = [n for n in noops if not n.startswith('futures_crate_path')]
+        if variant == 'noop' and kinds is None:
+            # must hold for all three kinds of the family: only options that are no-ops for each of them
+            noops = [n for n in noops if n.startswith('transpose_results')]
+        for n in noops:
+            if rng.random() < 0.5 or (variant == 'noop' and not opts):
+                opts.append(n)
+        rng.shuffle(opts)
+        top.options = ' '.join(opts)
+        pr = Program(pid, 'opts' if fut == '::futures' else 'optsf', top, ctx, kinds=kinds)
+        pr.extra_items = extra
+        pr.fut = fut
+        return pr
+    raise RuntimeError('cannot generate opts program')
 
 
 def gen_grid(pid, family, b, a, seed, steps=2):
@@ -1526,6 +1639,29 @@ def slice_programs(slice_name, tier, master_seed, base_id):
             for fam in FAMILIES:
                 progs.append(gen_grid(base_id + i, fam, b, a, subseed(master_seed, 'grid', b, a, fam)))
                 i += 1
+        return progs
+    if slice_name == 'optsf':
+        # compiled in a crate where the futures crate is only reachable as `fut03`: every futures item of the
+        # expansion that does not come from futures_crate_path(..) fails to compile there
+        reps = 3 if tier == 'quick' else 16
+        i = 0
+        for fam in [('async', False), ('async', True)]:
+            for (variant, kinds) in [('fcp', None)] + [v for v in OPT_VARIANTS[fam] if v[0] not in ('fcp', 'async_lazy')]:
+                for r in range(reps):
+                    pr = gen_opts(base_id + i, fam, variant, kinds, subseed(master_seed, 'optsf', fam, variant, r), fut='::fut03')
+                    if 'futures_crate_path' not in pr.top.options:
+                        pr.top.options = ('futures_crate_path(::fut03) ' + pr.top.options).strip()
+                    progs.append(pr)
+                    i += 1
+        return progs
+    if slice_name == 'opts':
+        reps = 3 if tier == 'quick' else 24
+        i = 0
+        for fam in FAMILIES:
+            for (variant, kinds) in OPT_VARIANTS[fam]:
+                for r in range(reps):
+                    progs.append(gen_opts(base_id + i, fam, variant, kinds, subseed(master_seed, 'opts', fam, variant, r)))
+                    i += 1
         return progs
     prof = dict(PROFILES[slice_name])
     n_random = {'quick': 48, 'thorough': 400}[tier]
